@@ -1,7 +1,10 @@
 (* runner.rs: exec() and the arms of the core note language, as an instantiation of the generic
    pos/loop_stack machine (LoopMachine.v).  The machine state is `res song`: a panic / unsupported
    construct / exhausted fuel halts it (like break_flag), so errors propagate to the result. *)
-From Sakura.Model Require Import Base Cursor Length Event Song Token LoopMachine.
+From Sakura.Model Require Import Base Cursor Length Event Song Token LoopMachine LexCore.
+From Sakura.Gen Require Import Messages.
+From Coq Require Import String.
+Open Scope string_scope.
 Open Scope Z_scope.
 
 Definition U_RUN_TRACKNO := 20. Definition U_RUN_TIE := 21. Definition U_RUN_VSUB := 22. Definition U_RUN_LOOPCOUNT := 23.
@@ -86,6 +89,43 @@ Definition exec_harmony_end (s : song) (len : list ch) (qlen : Z) (vel : option 
     s_set_harmony s1 false (s_harmony_time s) []
   else s.
 
+(* runtime_error *)
+Definition runtime_error (s : song) (msg : list ch) : song :=
+  add_log s (zs "[ERROR](" ++ show_int (s_lineno s) ++ zs ") " ++ msg_en_RuntimeError ++ zs ": " ++ msg).
+
+(* exec_get_time: TIME(n) is tick n; TIME(m:b:t) = (m - 1 + shift) * beat * numerator + (b - 1) * beat + t *)
+Definition exec_get_time (s : song) (args : list Z) (cmd : list ch) : Z * song :=
+  match args with
+  | [] => (0, runtime_error s (zs "[" ++ cmd ++ zs "] no arguments"))
+  | [a] => (a, s)
+  | m :: b :: t :: _ =>
+      let mes := m + s_measure_shift s in
+      let base := Z.quot (s_timebase s * 4) (s_timesig_deno s) in
+      ((mes - 1) * (base * s_timesig_frac s) + (b - 1) * base + t, s)
+  | _ => (0, runtime_error s (zs "[" ++ cmd ++ zs "] needs 1 or 3 arguments"))
+  end.
+
+(* tempo_change: FF 51 03 + 60000000/tempo big-endian *)
+Definition tempo_change (s : song) (tempo : Z) : song :=
+  let mpq := if tempo >? 0 then Z.quot 60000000 tempo else 120 in
+  let e := ev_meta (tr_timepos (cur_track s)) 255 81 3
+                   [as_u8 (Z.land (Z.shiftr mpq 16) 255); as_u8 (Z.land (Z.shiftr mpq 8) 255); as_u8 (Z.land mpq 255)] in
+  upd_cur (s_set_time s tempo (s_timesig_frac s) (s_timesig_deno s) (s_measure_shift s)) (fun t => tr_push_event t e).
+
+Definition exec_time_signature (s : song) (args : list Z) : song :=
+  match args with
+  | a :: b :: _ =>
+      let frac := value_range 2 a 64 in
+      let d0 := value_range 2 b 64 in
+      let ok := (d0 =? 2) || (d0 =? 4) || (d0 =? 8) || (d0 =? 16) in
+      let s1 := if ok then s else runtime_error s (zs "[TimeSignature] value must be 2/4/8/16,n") in
+      let deno := if ok then d0 else 4 in
+      let deno_v := if deno =? 2 then 1 else if deno =? 4 then 2 else if deno =? 8 then 3 else if deno =? 16 then 4 else 2 in
+      let s2 := s_set_time s1 (s_tempo s1) frac deno (s_measure_shift s1) in
+      upd_cur s2 (fun t => tr_push_event t (ev_meta (tr_timepos (cur_track s2)) 255 88 4 [as_u8 frac; as_u8 deno_v; 24; 8]))
+  | _ => runtime_error s (zs "[TimeSignature] argument must be 2")
+  end.
+
 Section Exec.
   (* exec() of the children of Sub / Div: supplied with one unit less of nesting fuel *)
   Variable exec_children : list tok -> res song -> res song.
@@ -133,6 +173,11 @@ Section Exec.
     | TTrackSync => Ok (track_sync s)
     | TPlayFromHere => Ok (s_set_play_from s (tr_timepos (cur_track s)))
     | TComment => Ok s
+    | TTime args => let '(v, s1) := exec_get_time s args (zs "TIME") in Ok (upd_cur s1 (fun t => tr_set_timepos t v))
+    | TPlayFrom args => let '(v, s1) := exec_get_time s args (zs "PlayFrom") in Ok (s_set_play_from s1 v)
+    | TTimeSignature args => Ok (exec_time_signature s args)
+    | TMeasureShift v => Ok (s_set_time s (s_tempo s) (s_timesig_frac s) (s_timesig_deno s) v)
+    | TTempo v => Ok (tempo_change s (value_range 10 v 300))
     end.
 
   Definition step_tok (t : tok) (s : res song) : res song := do sg <- s; step_song t sg.
